@@ -86,6 +86,26 @@ def run(ctx):
         with codecs_installed():
             return json.loads(json.dumps(x))
 
+    def via_codecs_installed_with_options(x):
+        # the installed route with ordinary decoding options (they make the standard library build a decoder of its own)
+        with codecs_installed():
+            text = json.dumps(x)
+            return rng.choice([lambda: json.loads(text, strict=False), lambda: json.loads(text, parse_constant=float),
+                               lambda: json.loads(text, parse_int=int), lambda: json.load(__import__("io").StringIO(text))])()
+
+    def via_same_document_twice(x):
+        # one in-memory document validated twice (a cached configuration, a retry): the first reading must not use it up
+        import copy as _copy
+        doc = adapters[type(x)].dump_python(x, mode="json")
+        keep = _copy.deepcopy(doc)
+        first = adapters[type(x)].validate_python(doc)
+        second = adapters[type(x)].validate_python(doc)
+        if doc != keep:
+            raise AssertionError(f"decoding altered the caller's document: {str(doc)[:120]}")
+        if isinstance(x, Q):
+            return second if first == second else first
+        return second if first is second else None
+
     def via_install(x):
         # the process-wide switch: measured.json.install() ... uninstall()
         from measured import json as mjson
@@ -106,6 +126,8 @@ def run(ctx):
         "json": lambda x: json.loads(json.dumps(x, cls=MeasuredJSONEncoder), cls=MeasuredJSONDecoder),
         "codecs_installed": via_codecs_installed,
         "json-install": via_install,
+        "codecs_installed-options": via_codecs_installed_with_options,
+        "pydantic-same-document-twice": via_same_document_twice,
         "pydantic-python": lambda x: adapters[type(x)].validate_python(adapters[type(x)].dump_python(x)),
         "pydantic-json": lambda x: adapters[type(x)].validate_python(json.loads(adapters[type(x)].dump_json(x), cls=MeasuredJSONDecoder)),
         "pydantic-json-mode-python": lambda x: adapters[type(x)].validate_python(adapters[type(x)].dump_python(x, mode="json")),
@@ -177,7 +199,7 @@ def run(ctx):
             ctx.count(f"quantities_x_codecs/{cname}/{mkind}")
             ctx.distinct((cname, "quantity", pools.shape_class(factors), mkind))
             case = {"quantity": [model.enc_mag(mag), term], "codec": cname}
-            uses_unit_str = cname in ("json", "codecs_installed", "json-install", "pydantic-python", "pydantic-json", "pydantic-json-mode-python", "sql-composite")
+            uses_unit_str = cname in ("json", "codecs_installed", "json-install", "codecs_installed-options", "pydantic-same-document-twice", "pydantic-python", "pydantic-json", "pydantic-json-mode-python", "sql-composite")
             if cname == "pydantic-python":
                 uses_unit_str = False  # python mode hands the Quantity object through
             try:
